@@ -8,7 +8,7 @@ OUT=seeded/MATRIX.md
 [ $# -eq 0 ] && { echo "| seed | property | result | replay kind |"; echo "|---|---|---|---|"; } > $OUT
 for ID in $IDS; do
   P=$(python3 -c "import json;print(json.load(open('seeded/$ID/meta.json'))['property'])")
-  git -C /repo apply seeded/$ID/patch.diff || { echo "| $ID | $P | PATCH DOES NOT APPLY | |" >> $OUT; continue; }
+  git -C /repo apply "$PWD/seeded/$ID/patch.diff" || { echo "| $ID | $P | PATCH DOES NOT APPLY | |" >> $OUT; continue; }
   L=$(./check $P 2>&1 | grep -v '^WARNING' | tail -2)
   git -C /repo checkout -- .
   V=$(echo "$L" | grep -c '^VIOLATION')
